@@ -2850,9 +2850,82 @@ def _is_own_class(p, f, rd, e):
     return False
 
 
+def _inert_params(p, f):
+    """{parameter: default expression} for the parameters of method f that have a default and that NO call in the analysed package
+    passes (k2-c14-4: `delimit(delimiter, *, chunk_size=None)`): calls are matched by method name on any receiver; a call with
+    * / ** arguments, a keyword of that name, enough positional arguments to reach it, or a use of the method name as a value
+    (bound-method alias, functools.partial) makes the parameter live."""
+    a = f.node.args
+    pos = [x.arg for x in a.posonlyargs + a.args]
+    if pos and pos[0] in ('self', 'cls'):
+        pos = pos[1:]
+    defaults = dict(zip(pos[len(pos) - len(a.defaults):], a.defaults)) if a.defaults else {}
+    defaults.update({x.arg: d for x, d in zip(a.kwonlyargs, a.kw_defaults) if d is not None})
+    if not defaults or a.vararg or a.kwarg:
+        return {}
+    live = set()
+    for m in p.modules.values():
+        called = set()
+        for n in ast.walk(m.tree):
+            if isinstance(n, ast.Call) and isinstance(n.func, (ast.Attribute, ast.Name)) and (n.func.attr if isinstance(n.func, ast.Attribute) else n.func.id) == f.name:
+                called.add(id(n.func))
+                if any(isinstance(x, ast.Starred) for x in n.args) or any(k.arg is None for k in n.keywords):
+                    return {}
+                live |= {k.arg for k in n.keywords} | set(pos[:len(n.args)])
+        for n in ast.walk(m.tree):
+            if id(n) not in called and ((isinstance(n, ast.Attribute) and n.attr == f.name and isinstance(n.ctx, ast.Load))
+                                        or (isinstance(n, ast.Name) and n.id == f.name and isinstance(n.ctx, ast.Load))
+                                        or (isinstance(n, ast.Constant) and n.value == f.name)):
+                return {}
+    return {k: d for k, d in defaults.items() if k not in live}
+
+
+def _under_defaults(f, e, inert):
+    """Expression e of method f with every never-passed parameter (never re-bound in f) read as its constant default: `<falsy> or x` /
+    `x if <param> is None else ...` / `... if <param> else x` reduce to the operand that is evaluated."""
+    stores = {n.id for n in walk_self(f.node) if isinstance(n, ast.Name) and isinstance(n.ctx, (ast.Store, ast.Del))}
+    consts = {k: d.value for k, d in inert.items() if isinstance(d, ast.Constant) and k not in stores}
+
+    def const(x):
+        if isinstance(x, ast.Constant):
+            return True, x.value
+        if isinstance(x, ast.Name) and x.id in consts:
+            return True, consts[x.id]
+        if isinstance(x, ast.UnaryOp) and isinstance(x.op, ast.Not):
+            k, v = const(x.operand)
+            return (True, not v) if k else (False, None)
+        if isinstance(x, ast.Compare) and len(x.ops) == 1 and isinstance(x.ops[0], (ast.Is, ast.IsNot, ast.Eq, ast.NotEq)):
+            (ka, va), (kb, vb) = const(x.left), const(x.comparators[0])
+            if ka and kb and (va is None or vb is None or isinstance(x.ops[0], (ast.Eq, ast.NotEq))):
+                same = (va is vb) if (va is None or vb is None) else (va == vb and type(va) is type(vb))
+                return True, same == isinstance(x.ops[0], (ast.Is, ast.Eq))
+        return False, None
+
+    def red(x):
+        if isinstance(x, ast.Name) and x.id in consts:
+            return ast.copy_location(ast.Constant(consts[x.id]), x)
+        if isinstance(x, ast.BoolOp):
+            vals = [red(v) for v in x.values]
+            for i, v in enumerate(vals):
+                k, c = const(v)
+                if not k:
+                    return v if i == len(vals) - 1 else x       # the first operand that is not a known constant decides from there on
+                if bool(c) == isinstance(x.op, ast.Or) or i == len(vals) - 1:
+                    return v
+            return x
+        if isinstance(x, ast.IfExp):
+            k, c = const(red(x.test))
+            if k:
+                return red(x.body if c else x.orelse)
+        return x
+
+    return red(e)
+
+
 def r14_subreader_chunk_size(run):
     p = run.project
     n_sites = 0
+    inert_of = {}
     for qual in (SYNC, ASYNC):
         rd = Reader(p, qual)
         init, ps, cparam = _chunk_param(rd)
@@ -2881,6 +2954,12 @@ def r14_subreader_chunk_size(run):
                     binds = [n.value for n in walk_self(f.node) if isinstance(n, ast.Assign) and len(n.targets) == 1 and dotted(n.targets[0]) == a.id]
                     if len(binds) == 1 and a.id not in f.params():
                         a = binds[0]
+                if a is not None and any(isinstance(x, ast.Name) and x.id in f.params() for x in ast.walk(a)):
+                    # an optional parameter that no caller in the package passes is its default in every call falcon makes
+                    inert = inert_of.get(f.qual)
+                    if inert is None:
+                        inert = inert_of[f.qual] = _inert_params(p, f)
+                    a = _under_defaults(f, a, inert)
                 if a is None:
                     verdict = False                  # left out: the constructor's default
                 elif dotted(a) == CHUNK:
